@@ -456,7 +456,9 @@ func run(c *vf.Ctx) {
 	{
 		var got []byte
 		var err error
-		pan, _, _ := vf.Protect(func() { got, err = box.SealAnonymous(nil, []byte("x"), &pairs[4].pk, bytes.NewReader(make([]byte, 31))) })
+		pan, _, _ := vf.Protect(func() {
+			got, err = box.SealAnonymous(nil, []byte("x"), &pairs[4].pk, bytes.NewReader(make([]byte, 31)))
+		})
 		c.Eval(1)
 		if pan || err == nil || got != nil {
 			c.Violation("box.SealAnonymous ignores a short read from rand", fmt.Sprint(err))
